@@ -6,10 +6,10 @@ import (
 
 // ---- AST universe of C08 -----------------------------------------------------
 
-func num(s string) refxp.Expr            { return refxp.Num{Text: s} }
-func lit(s string) refxp.Expr            { return refxp.Lit{V: s} }
+func num(s string) refxp.Expr                   { return refxp.Num{Text: s} }
+func lit(s string) refxp.Expr                   { return refxp.Lit{V: s} }
 func bin(op string, l, r refxp.Expr) refxp.Expr { return &refxp.Bin{Op: op, L: l, R: r} }
-func neg(x refxp.Expr) refxp.Expr        { return &refxp.Neg{X: x} }
+func neg(x refxp.Expr) refxp.Expr               { return &refxp.Neg{X: x} }
 func call(name string, args ...refxp.Expr) *refxp.Call {
 	return &refxp.Call{Local: name, Args: args}
 }
@@ -23,8 +23,12 @@ func axisStep(axis string, t refxp.Test, preds ...refxp.Expr) *refxp.Step {
 func attr(local string) *refxp.Step {
 	return &refxp.Step{Form: refxp.FormAt, Axis: "attribute", Test: nameTest(local)}
 }
-func dot() *refxp.Step    { return &refxp.Step{Form: refxp.FormDot, Axis: "self", Test: refxp.Test{Kind: refxp.TNode}} }
-func dotdot() *refxp.Step { return &refxp.Step{Form: refxp.FormDotDot, Axis: "parent", Test: refxp.Test{Kind: refxp.TNode}} }
+func dot() *refxp.Step {
+	return &refxp.Step{Form: refxp.FormDot, Axis: "self", Test: refxp.Test{Kind: refxp.TNode}}
+}
+func dotdot() *refxp.Step {
+	return &refxp.Step{Form: refxp.FormDotDot, Axis: "parent", Test: refxp.Test{Kind: refxp.TNode}}
+}
 func ds(s *refxp.Step) *refxp.Step {
 	c := *s
 	c.DSlash = true
